@@ -37,7 +37,7 @@ def gen(rng):
         ops = []
         for _ in range(rng.randint(1, 4)):
             ops.append(rng.choice(["submit", "submit", "submit_nested", "submit_nested", "cancel", "addcb", "addcb_nested", "result",
-                                   "submit_blocked", "addcb_nested"]))
+                                   "submit_blocked", "addcb_nested", "submit_inner_nested"]))
         progs.append(ops)
     return {"base": rng.choice(["sync", "sync", "pool"]), "layers": layers, "progs": progs,
             "nested_in_map": rng.random() < 0.4, "shutdown": rng.random() < 0.4, "fail": rng.random() < 0.3,
@@ -111,6 +111,10 @@ def run_once(p, chooser):
                 else:
                     ex = ex.with_cancel_on_shutdown()
             box["top"] = ex
+            inner = ex
+            while getattr(inner, "_delegate", None) is not None and hasattr(getattr(inner, "_delegate"), "_shutdown"):
+                inner = inner._delegate
+            box["inner"] = inner
             # name the locks of every layer: G<i> gate, X<i> executor lock
             o = ex
             i = len(p["layers"])
@@ -152,6 +156,10 @@ def run_once(p, chooser):
                             futs.append(top.submit(with_nested))
                         elif op == "submit_blocked":
                             futs.append(top.submit(blocked))
+                        elif op == "submit_inner_nested":
+                            # a user who also holds an INNER layer of the stack (here: the lowest more-executors layer, i.e. the
+                            # sync base or the layer right above the thread pool) submits to it a callable that submits to the top
+                            futs.append(box["inner"].submit(with_nested))
                         elif op == "cancel" and futs:
                             futs[-1].cancel()
                         elif op == "addcb" and futs:
